@@ -124,6 +124,20 @@ class Program:
         self.impls = self.d["impls"]
         self.instances = self.d["instances"]
         self.enums = {k: {int(d): n for d, n in v} for k, v in self.d.get("enums", {}).items()}
+        self.no_inline = _spec_functions()
+        self._helper_memo = {}
+
+    # ---- crate-private helper functions -----------------------------------------------------------------
+    def is_private_helper(self, key):
+        """a module-private free function / inherent method that no spec table names: rules look THROUGH such
+        functions (they are an implementation detail a refactoring may introduce or remove at will)"""
+        f = self.fns.get(key)
+        if f is None or f.kind not in ("Fn", "AssocFn") or not f.blocks or f.impl_trait or f.trait_default_of:
+            return False
+        if key in self.no_inline:
+            return False
+        vis = f.d.get("vis", "")
+        return vis.startswith("Restricted(") and "DefId(0:0 " not in vis
 
     # ---- lookup helpers -------------------------------------------------
     def fn(self, key):
@@ -179,3 +193,17 @@ class Program:
 def short(s, n=160):
     s = str(s)
     return s if len(s) <= n else s[: n - 3] + "..."
+
+
+def _spec_functions():
+    """function keys that the spec tables / rules refer to by name (never inlined)"""
+    out = set()
+    try:
+        from spec import rfc8152, panics, builders
+        out |= set(rfc8152.ROUTING) | set(rfc8152.HELPERS) | set(rfc8152.STRUCTURES)
+        out |= {v["text"] for v in rfc8152.STRUCTURES.values()}
+        out |= {k[0] for k in panics.DOCUMENTED} | {k[0] for k in panics.INVARIANT}
+        out |= set(builders.EFFECTS) | set(builders.GUARDS) | set(builders.KEY_CONSTRUCTORS)
+    except Exception:
+        pass
+    return out
